@@ -193,6 +193,12 @@ func (s *Mut) Apply(st *state.StateDB, op string, idx int) (ob string, ok bool) 
 		s.SNonce++
 		st.AddStakingRecord(Acc[2], ValAddr[0], common.BigToHash(big.NewInt(2000+s.SNonce)), Tok(s.SNonce, 2))
 		st.AddPendingRelationship(Acc[2], ValAddr[0])
+	case "srec3(D,V0)": // three staking txs of one (delegator, validator) pair in one block: the record's hash list grows in memory
+		for i := 0; i < 3; i++ {
+			s.SNonce++
+			st.AddStakingRecord(Acc[2], ValAddr[0], common.BigToHash(big.NewInt(2000+s.SNonce)), Tok(s.SNonce, 2))
+		}
+		st.AddPendingRelationship(Acc[2], ValAddr[0])
 	case "prel(D,V2)":
 		st.AddPendingRelationship(Acc[2], ValAddr[2])
 	default:
